@@ -13,6 +13,9 @@ CLAIMED = {
  'C02': dict(
   text="For every list of <=4 line changes (whole-line or <=2 char ranges each) and every geometry of a block's start tag, start comment and end comment (symbolic integers), Z3 shows on the MIR of the parse_file filter closure and the four intersection functions: selected <=> tag or content touched; content-modified <=> content touched; attribute-only and end-tag-only edits are not content edits; scan mode keeps every block.",
   note="Trusted: interpreter + std models. Assumed: changes sorted by line, ranges sorted/separated (post-condition of the diff side, C01). Whole-line changes on tag-comment lines are don't-care. Not decided here: validators' independence of the modified flags (C06-C09 harnesses), globs (C15)."),
+ 'C09': dict(
+  text="For every line-count expression up to the length bound over the alphabet '<>= 0-9x+tab' and every content of <= N short lines over {a, space, tab}, Z3 shows on the MIR of LineCountValidator::validate + parse_constraint: the run errors exactly on expressions outside the grammar ws* OP ws* +?digits ws* (value < 2^64); otherwise one violation iff not(count OP N) with data.actual/op/expected equal to count, OP, N.",
+  note="Trusted: interpreter, string models (byte-wise ASCII semantics of trim/strip_prefix/parse/lines), serde_json::to_value modelled as identity. Two families (symbolic expression x concrete content; concrete expression menu x symbolic content) instead of the full product. ASCII only."),
 }
 
 NOT_APPLICABLE = {
